@@ -9,3 +9,4 @@ import CliUtils.Props.C07
 import CliUtils.Props.C08
 import CliUtils.Props.C09
 import CliUtils.Props.C16
+import CliUtils.Props.C18
